@@ -53,10 +53,43 @@ def run_jobs(jobs):
     return out
 
 
-def variants(rng, recs, k):
-    """k damaged copies of a record list: one record dropped / duplicated, the tail cut, two neighbours swapped."""
+def cut_text_mid_character(rng, recs, codes):
+    """A copy in which one kernel string record (TRACE_STRING_*) ends in the middle of a multi-byte UTF-8 character — what a
+    32-byte field does to a long non-ASCII name.  Decoding such a stream may legitimately fail; nothing of it may reach the
+    next stream."""
+    idx = []
+    for i, h in enumerate(recs):
+        r = bytes.fromhex(h)
+        eid = int.from_bytes(r[48:52], 'little') & 0xfffffffc
+        if str(codes.get(str(eid), codes.get(eid, ''))).startswith('TRACE_STRING'):
+            idx.append(i)
+    if not idx:
+        return None
+    i = rng.choice(idx)
+    r = bytearray(bytes.fromhex(recs[i]))
+    eid = int.from_bytes(r[48:52], 'little') & 0xfffffffc
+    name = str(codes.get(str(eid), codes.get(eid, '')))
+    lo = 24 if name == 'TRACE_STRING_GLOBAL' and (r[48] & 1) else 8
+    text = rng.choice([b'caf\xc3', b'na\xc3\xafve \xe2\x82', b'\xf0\x9f\x98', b'x\xe4\xb8'])
+    r[lo:40] = text.ljust(40 - lo, b'\0')[:40 - lo]
+    if r[39] == 0:                                   # make the cut fall at the very end of the field as well, sometimes
+        tail = rng.choice([b'\xc3', b'\xe2\x82', b''])
+        if tail:
+            r[40 - len(tail):40] = tail
+            for j in range(lo + len(text), 40 - len(tail)):
+                r[j] = 0x61
+    return recs[:i] + [bytes(r).hex()] + recs[i + 1:]
+
+
+def variants(rng, recs, k, codes=None):
+    """k damaged copies of a record list: one record dropped / duplicated, the tail cut, two neighbours swapped; with `codes`
+    also a copy whose kernel string ends mid-character."""
     out = []
     n = len(recs)
+    if codes is not None and n:
+        v = cut_text_mid_character(rng, recs, codes)
+        if v is not None:
+            out.append(v)
     for _ in range(k):
         if n == 0:
             break
@@ -79,15 +112,16 @@ def section(rep, rng, tier, prop, name='scenario-history'):
     sec = rep.section(name)
     n = 40 if tier == 'quick' else 1500
     sec['rule'] = ('%d base scenarios (complete operations of every kind: syscalls with lookups, new-thread / exec pairs, strings, '
-                   'terminate records, sampler windows, page faults and launch windows with nested records), each with 3 damaged '
-                   'copies (a record dropped / duplicated / the tail cut / two records swapped); in a fresh interpreter: the '
+                   'terminate records, sampler windows, page faults and launch windows with nested records), each with damaged '
+                   'copies (a record dropped / duplicated / the tail cut / two records swapped / a kernel string cut in the middle of a '
+                   'multi-byte character); in a fresh interpreter: the '
                    'complete scenario decoded first thing vs. decoded after a damaged copy, and vice versa; everything '
                    'feed_generator reports and the final tables must be the same (oracle on the code alone)' % n)
     jobs, meta = [], []
     for _ in range(n):
         base = PL.random_scenario(rng, perturb=False)
         recs = base['events']
-        for v in variants(rng, recs, 3):
+        for v in variants(rng, recs, 3, base['codes']):
             dam = dict(base, events=v)
             jobs.append({'first': dam, 'then': base})
             meta.append(('damaged-then-complete', dam, base))
